@@ -22,10 +22,15 @@ fn find_needle(installer_file: &[u8], needle: &str) -> Option<String> {
         .position(|window| window == bytes)?;
 
     let parse_char_at_position = |position: usize| {
-        let upper = installer_file[position];
-        let lower = installer_file[position + 1];
+        // the string may run into the end of a truncated file
+        let (Some(upper), Some(lower)) = (
+            installer_file.get(position),
+            installer_file.get(position + 1),
+        ) else {
+            return Err(0);
+        };
 
-        let result = char::decode_utf16([((upper as u16) << 8) | lower as u16])
+        let result = char::decode_utf16([((*upper as u16) << 8) | *lower as u16])
             .map(|r| r.map_err(|e| e.unpaired_surrogate()))
             .collect::<Vec<_>>();
 
@@ -47,7 +52,7 @@ fn find_needle(installer_file: &[u8], needle: &str) -> Option<String> {
 
 /// Extract the frontier URL from ffxivlauncher.exe
 pub fn extract_frontier_url(launcher_path: &str) -> Option<String> {
-    let installer_file = fs::read(launcher_path).unwrap();
+    let installer_file = fs::read(launcher_path).ok()?;
 
     // New Frontier URL format
     if let Some(url) = find_needle(&installer_file, "https://launcher.finalfantasyxiv.com") {
